@@ -51,6 +51,22 @@ CHECKS = {
         technique=RM + 'one abstract mesh / many encodings: reference-model monitor on Mesh2DTopology tables vs a pure-python mesh model + reach monitor on every make_*_array',
         text='Each random mesh (3..8-sided convex/concave faces) is encoded in a covering sample (quick) or the full 1152-encoding product (thorough) of start_index x fill x orientation x supplied-table subsets x edge-dimension declaration x coordinate storage; normalised face-node, supplied tables (used as given, permuted edge order) and derived tables are compared with the model.',
         note=NOTE + 'Transposed tables come with the *_dimension attribute UGRID requires; cross-numbering checks only between tables that share a numbering.', ref='DESIGN.md §5 C10'),
+    'C14': dict(
+        technique=RM + 'reference-model monitor on triangulate_dataset with exact rational arithmetic on an integer-lattice face family (count, membership, containment, pairwise interior overlap, area sum) + reach monitor',
+        text='triangulate_dataset is run on generated datasets of every convention (with holes) and on free-standing lattice faces (convex, L/U/T/staircase, stars, exactly collinear vertices, CW/CCW, 3..8 sides, integer linear maps, a float-rotated family); per cell: n-2 triangles made of the cell\'s vertices, inside the cell, pairwise non-overlapping (exact separating-axis test), areas summing exactly to the cell area; holes have none; vertex rows unique and indexes valid.',
+        note=NOTE + 'Exact Fractions on the lattice family, GEOS covers / 1e-9 relative elsewhere; cells with skip_cells not asserted.', ref='DESIGN.md §5 C14'),
+    'C15': dict(
+        technique=RM + 'round-trip monitor: files written by the real exporters are read back with independent readers (json, pyshp, shapely.from_wkt/from_wkb) and compared with the abstract model; mechanism classifier for the known 6-decimal rounding + reach monitor',
+        text='write_geojson / write_shapefile / write_wkt / write_wkb on generated datasets of all conventions (holes, dropped bow-tie cells, multi-kind native indexes); feature count, order, coordinates, recorded linear index and native index (which must ravel back to the same cell) are compared with the model.',
+        note=NOTE + 'Open known finding text-format-6dp-rounding (GeoJSON and WKT round to 6 decimals) is reported as KNOWN-FINDING by a per-feature predicate; any other coordinate difference is a violation. Shapefile rings compared modulo start/direction (format prescribes winding).', ref='DESIGN.md §5 C15'),
+    'C18': dict(
+        technique=RM + 'reference-model monitor on Transect (segments, points, transect_dataset, prepared data) with 1-D interval arithmetic along the path, metric-free monotonicity, and the documented metric recomputed with cartopy/pyproj only; mechanism classifier for the known shared-edge double count + reach monitor',
+        text='Thousands of simple polylines (through, inside, starting outside, zig-zag across holes, along shared and border edges, re-entering, missing) over generated grids and meshes; per segment: inside its cell and on the path, consistent linear/native index and polygon, start <= end, sorted; union of segments == path inside the model; reported distances monotone in path position and equal to the recomputed geodesic metric; lengths conserved; prepared data columns hold the ids of the segment cells at every depth.',
+        note=NOTE + 'cfunits is replaced by a stand-in (axis labels only; the real one needs the absent udunits2 library). Distances checked against the metric emsarray documents (geodesic through cartopy PlateCarree->geodetic conversion), tolerance 1e-6 relative + 1 mm. Open known finding shared-edge-double-count.', ref='DESIGN.md §5 C18'),
+    'C19': dict(
+        technique=RM + 'reference-model monitor on matplotlib artists (PolyCollection paths/array/clim, Quiver X/Y/U/V, animation frames) under the Agg backend with self-identifying values + expected-error events + reach monitor',
+        text='make_poly_collection (by name / by array / reduced datasets, overrides array / clim / transform), make_quiver and animate_on_figure on generated datasets with and without holes: one patch per cell with geometry in linear order with that cell\'s outline and value, default clim = range of the plotted values, arrows at face centres with the components of the same cell, leftover dimensions and array+data refused.',
+        note=NOTE + 'No rendering, no coastline data. Variables on non-face kinds are not asserted (statement silent).', ref='DESIGN.md §5 C19'),
 }
 
 PENDING_REASON = 'monitor not built yet in this session (planned, see DESIGN.md §5); will be claimed once its check runs clean on the unchanged tree'
